@@ -2721,13 +2721,18 @@ class PGPKeyring(collections_abc.Container, collections_abc.Iterable, collection
         self._aliases = collections.deque([{}])
         self.load(*args)
 
+    @staticmethod
+    def _compact(alias):
+        # fingerprints and key ids may be written as blocks of hex digits separated by spaces; any other
+        # identifier (a name, a comment) is taken as it is
+        if isinstance(alias, str) and ' ' in alias and re.match(r'^[0-9A-Fa-f ]+$', alias):
+            return alias.replace(' ', '')
+
+        return alias
+
     def __contains__(self, alias):
         aliases = set().union(*self._aliases)
-
-        if isinstance(alias, str):
-            return alias in aliases or alias.replace(' ', '') in aliases
-
-        return alias in aliases  # pragma: no cover
+        return alias in aliases or self._compact(alias) in aliases
 
     def __len__(self):
         return len(self._keys)
@@ -2737,12 +2742,10 @@ class PGPKeyring(collections_abc.Container, collections_abc.Iterable, collection
             yield pgpkey
 
     def _get_key(self, alias):
-        for m in self._aliases:
-            if alias in m:
-                return self._keys[m[alias]]
-
-            if alias.replace(' ', '') in m:
-                return self._keys[m[alias.replace(' ', '')]]
+        for candidate in (alias, self._compact(alias)):
+            for m in self._aliases:
+                if candidate in m:
+                    return self._keys[m[candidate]]
 
         raise KeyError(alias)
 
